@@ -343,7 +343,10 @@ def hdrop (w : World) (h : Nat) : Except Err (World × Res) :=
 
 /-- `clear_props<k>()` (ResourceManagerT_impl.hh:55-66) for every kind accepted by `sel`
     (`clear_all_props` = all seven, ResourceManager.cc:148-151): persistent flags off and the
-    owning set emptied, then every tracked storage un-shared.  Names are kept. -/
+    owning set emptied, then every tracked storage un-shared.  Names are kept.
+    (The C++ clears `persistent_` through the owning set and `shared_` through the tracker; the
+    model clears both flags through the tracker — the same storages whenever set and flags agree,
+    which is invariant `persEntry`/`persListed`.) -/
 def clearPropsCore (w : World) (m : Nat) (sel : Kind → Bool) : World :=
   let w := modM w m (fun me => { me with pers := me.pers.filter (fun i => !(getS w i).any (fun s => sel s.kind)) })
   mapHeap w (fun s => if s.tracker = some m && sel s.kind then { s with pers := false, shared := false } else s)
